@@ -207,6 +207,8 @@ def run(ck, rng):
     _shared_cache(ck, rng)
     # ---- parallel chain / linearization / finite differences vs sequential
     _chains(ck, rng)
+    _disc_parallel(ck, rng)
+    _deep_copy_chain(ck, rng)
     _fd(ck, rng)
 
 
@@ -481,3 +483,122 @@ def _shared_cache_processes(ck, rng, scheds, inp, out, jac, own):
                 n += 1
                 ck.traces += 1
     ck.extra["shared_cache_process_schedules_replayed"] = n
+
+
+def _disc_parallel(ck, rng):
+    """DiscParallelExecution / DiscParallelLinearization with one discipline per input: for every subset
+    of failing disciplines (the `fails` sets of ParallelExec.tla) the returned list is positionally
+    matched and EACH DISCIPLINE holds its own outputs afterwards (a failure affects only its own slot) -
+    the state a sequential loop over the disciplines leaves."""
+    import itertools
+
+    from gemseo.core.discipline import Discipline
+    from gemseo.core.parallel_execution.disc_parallel_execution import DiscParallelExecution
+
+    def mk(k, fail):
+        class D(Discipline):
+            def __init__(self):
+                super().__init__(name=f"D{k}")
+                self.io.input_grammar.update_from_names(["x"])
+                self.io.output_grammar.update_from_names([f"y{k}"])
+                self.io.input_grammar.defaults.update({"x": np.array([0.0])})
+
+            def _run(self, input_data):
+                if fail:
+                    raise ValueError(f"D{k} fails")
+                return {f"y{k}": input_data["x"] * (k + 2)}
+
+        return D()
+
+    n = 0
+    nd = 3
+    subsets = [set(c) for r in range(nd + 1) for c in itertools.combinations(range(nd), r)]
+    for use_threading in (True, False):
+        todo = subsets if (ck.thorough or use_threading) else rng.sample(subsets, 3)
+        for fails in todo:
+            discs = [mk(k, k in fails) for k in range(nd)]
+            inputs = [{"x": np.array([10.0 + k])} for k in range(nd)]
+            sig = {"what": "disc_parallel_execution", "threads": use_threading}
+            case = {"client": "DiscParallelExecution", "threads": use_threading, "failing": sorted(fails)}
+            with contextlib.redirect_stderr(io.StringIO()):
+                ok, out = ck.guard("DiscParallelSlotIsolation", sig,
+                                   lambda: DiscParallelExecution(discs, n_processes=2, use_threading=use_threading).execute(inputs))
+            if not ok:
+                continue
+            bad = []
+            for k in range(nd):
+                want = None if k in fails else {"x": 10.0 + k, f"y{k}": (10.0 + k) * (k + 2)}
+                got = out[k]
+                if want is None:
+                    if got is not None:
+                        bad.append(f"slot {k}: expected None (failed), got data")
+                    continue
+                if got is None or float(got[f"y{k}"][0]) != want[f"y{k}"]:
+                    bad.append(f"slot {k}: returned {None if got is None else dict(got)}")
+                held = discs[k].io.data
+                if f"y{k}" not in held or float(held[f"y{k}"][0]) != want[f"y{k}"] or float(held["x"][0]) != want["x"]:
+                    bad.append(f"discipline D{k} holds { {a: np.asarray(b).tolist() for a, b in held.items()} } instead of its own outputs")
+            if bad:
+                ck.violation("DiscParallelSlotIsolation", sig, dict(case, problems=bad))
+            else:
+                n += 1
+                ck.traces += 1
+    ck.extra["disc_parallel_execution_runs"] = n
+
+
+def _deep_copy_chain(ck, rng):
+    """MDOParallelChain(use_deep_copy=True, threads): every discipline works on ITS OWN copy of the input
+    data, so a discipline that updates an input array in place cannot change what a sibling reads, for
+    either completion order (both orders are forced with events)."""
+    from gemseo.core.chains.parallel_chain import MDOParallelChain
+    from gemseo.core.discipline import Discipline
+
+    n = 0
+    for first in ("inplace", "reader"):
+        inplace_done = threading.Event()
+        reader_done = threading.Event()
+
+        class InPlace(Discipline):
+            def __init__(self):
+                super().__init__(name="InPlace")
+                self.io.input_grammar.update_from_names(["x"])
+                self.io.output_grammar.update_from_names(["y1"])
+                self.io.input_grammar.defaults.update({"x": np.array([1.0, 2.0])})
+
+            def _run(self, input_data):
+                if first == "reader":
+                    reader_done.wait(10)
+                x = input_data["x"]
+                x *= 2.0  # legitimate with use_deep_copy=True: the array is this discipline's own copy
+                inplace_done.set()
+                return {"y1": x + 1.0}
+
+        class Reader(Discipline):
+            def __init__(self):
+                super().__init__(name="Reader")
+                self.io.input_grammar.update_from_names(["x"])
+                self.io.output_grammar.update_from_names(["y2"])
+                self.io.input_grammar.defaults.update({"x": np.array([1.0, 2.0])})
+
+            def _run(self, input_data):
+                if first == "inplace":
+                    inplace_done.wait(10)
+                out = {"y2": input_data["x"] * 2.0}
+                reader_done.set()
+                return out
+
+        sig = {"what": "parallel_chain_deep_copy", "first": first}
+        chain = MDOParallelChain([InPlace(), Reader()], use_threading=True, n_processes=2, use_deep_copy=True)
+        with contextlib.redirect_stderr(io.StringIO()):
+            ok, out = ck.guard("ChainEquivalent", sig, chain.execute, {"x": np.array([1.0, 2.0])})
+        if not ok:
+            continue
+        # sequential semantics: each discipline sees the chain input x = [1, 2]
+        if not (np.array_equal(out["y1"], [3.0, 5.0]) and np.array_equal(out["y2"], [2.0, 4.0])):
+            ck.violation("ChainEquivalent", sig, {"client": "MDOParallelChain(use_deep_copy=True)", "completes_first": first,
+                                                  "y1": np.asarray(out["y1"]).tolist(), "y2": np.asarray(out["y2"]).tolist(),
+                                                  "sequential": {"y1": [3.0, 5.0], "y2": [2.0, 4.0]}})
+        else:
+            n += 1
+            ck.traces += 1
+    ck.extra["parallel_chain_deep_copy_orders"] = n
